@@ -399,15 +399,19 @@ fn plant(buf: &mut Vec<u8>, rng: &mut Rng, kind: u64) -> &'static str {
     let toc = rng.bytes(toc_len);
     let mut hash = *blake3::hash(&toc).as_bytes();
     let mut len_field = toc_len as u64;
+    // a footer whose own fields contain the footer magic (kind 5: its generation spells it): a scan that meets that inner
+    // "footer" first must come back to the real one, which starts only a few bytes lower
+    let magic_generation = u64::from_le_bytes(*b"MV2FOOT!");
     let name = match kind {
         0 => "valid",
+        5 => "valid-with-magic-in-generation",
         1 => { hash[rng.usize(0, 31)] ^= 1; "wrong-hash" }
         2 => { len_field = buf.len() as u64 + toc_len as u64 + 1 + rng.below(1000); "oversized-length" }
         3 => { len_field = 0; "zero-length" }
         _ => "valid",
     };
     buf.extend_from_slice(&toc);
-    let f = CommitFooter { toc_len: len_field, toc_hash: hash, generation: rng.below(1000) };
+    let f = CommitFooter { toc_len: len_field, toc_hash: hash, generation: if kind == 5 { magic_generation } else { rng.below(1000) } };
     buf.extend_from_slice(&f.encode());
     name
 }
@@ -430,8 +434,10 @@ pub fn c31(rep: &mut Report, rng: &mut Rng, cases: u64) {
             }
             if rng.chance(1, 4) { buf.extend_from_slice(b"MV2FOOT"); }
             if rng.chance(3, 4) {
-                let kind = rng.below(5);
+                let kind = rng.below(6);
                 planted.push(plant(&mut buf, rng, kind));
+                // bytes behind the footer, so that a magic inside it is followed by a full footer's worth of data
+                if kind == 5 || rng.chance(1, 6) { let n = rng.usize(40, 90); buf.extend(rng.bytes(n)); }
             }
         }
         match rng.below(6) {
